@@ -273,7 +273,17 @@ fn one_project(dir: &str) -> Value {
                     Value::Array(keys.iter().map(|(ns, k)| json!([format!("{}::", ns.name), {"sub": builder_keys_json(k)}])).collect())
                 }
             };
-            json!({"ok": {"keys": keys}})
+            // the final (resolved, reduced) value of every top-level key of every locale
+            let finals: Vec<Value> = match &bk {
+                BuildersKeys::Locales { locales, .. } => {
+                    locales.iter().map(|l| json!({"name": &*l.name.name, "keys": keys_tree(l)})).collect()
+                }
+                BuildersKeys::NameSpaces { namespaces, .. } => namespaces
+                    .iter()
+                    .flat_map(|ns| ns.locales.iter().map(move |l| json!({"name": &*l.name.name, "ns": &*ns.key.name, "keys": keys_tree(l)})))
+                    .collect(),
+            };
+            json!({"ok": {"keys": keys, "final": finals}})
         }
     };
     let ws: Vec<Value> = warnings.into_inner().iter().map(warning_json).collect();
